@@ -79,6 +79,14 @@ func vC15Value(which int) (interface{}, map[string]string) {
 		v := &ZOuter{A: 1, In: ZInner{N: 2, S: "i"}, Z: 3}
 		_, nm := vExtract(v)
 		return v, nm
+	case 9:
+		b := make([]byte, 8292) // three chunks
+		b[5000] = byte(vInt32("x"))
+		return b, map[string]string{}
+	case 10:
+		v := &ZText{A: "a", B: make([]byte, 4100), Z: 1}
+		_, nm := vExtract(v)
+		return v, nm
 	default:
 		// 18 distinct classes: the last ones are written in the long 'O' form
 		v := zManyClasses(18, 5, 17)
@@ -90,7 +98,7 @@ func vC15Value(which int) (interface{}, map[string]string) {
 // H_C15_fault: for every value, every index k of the k-th Write made while encoding it, and every fault
 // kind: if the fault fired, the encode call reports an error.
 func H_C15_fault() {
-	which := vChoice("value", 9)
+	which := vChoice("value", 11)
 	v, nm := vC15Value(which)
 	// fault-free run: count the Write calls
 	w0 := &vFaultWriter{failAt: -1}
